@@ -111,7 +111,7 @@ func parseProxyV2(br *bufio.Reader) (*ProxyInfo, error) {
 	if cmd == 0x0 {
 		return &ProxyInfo{Local: true}, nil
 	}
-	family := header[13] & 0x0f
+	family := header[13] >> 4 // high nibble: address family (low nibble is the transport protocol)
 	switch family {
 	case 0x1:
 		return parseProxyV2Inet(payload)
